@@ -95,6 +95,32 @@ Section Cryptobox.
     | None => None
     end.
 
+  (* ---------------- the keyring is a MUTABLE object: histories ---------------- *)
+  (* One step in the life of a KeyRing: a set_key call, or a USE — any computation that only reads the ring
+     (_get_box / encode / decode, hence every publish, call, EVENT, INVOCATION, YIELD, RESULT, ERROR of the session
+     that owns it).  As coded a use has no effect on the ring (no cache, no memo): the next step sees exactly the
+     ring produced by the set_key calls so far. *)
+  Inductive kstep (X : Type) := KSet (uri : string) (k : option key) | KUse (f : keyring -> X).
+  Arguments KSet {X}. Arguments KUse {X}.
+  Fixpoint run_history {X : Type} (r : keyring) (steps : list (kstep X)) : keyring * list X :=
+    match steps with
+    | [] => (r, [])
+    | KSet u k :: rest => run_history (set_key r u k) rest
+    | KUse f :: rest => let '(r', xs) := run_history r rest in (r', f r :: xs)
+    end.
+  (* the set_key calls of a history, in order *)
+  Fixpoint sets_of {X : Type} (steps : list (kstep X)) : list (string * option key) :=
+    match steps with
+    | [] => []
+    | KSet u k :: rest => (u, k) :: sets_of rest
+    | KUse _ :: rest => sets_of rest
+    end.
+  Definition apply_sets (r : keyring) (sets : list (string * option key)) : keyring :=
+    fold_left (fun acc '(u, k) => set_key acc u k) sets r.
+  (* what the history says about one prefix: the key of the LAST set_key for it (None: never set, or removed) *)
+  Definition binding (sets : list (string * option key)) (p : string) : option key :=
+    fold_left (fun acc '(u, k) => if String.eqb u p then k else acc) sets None.
+
   (* types.py EncodedPayload *)
   Record encoded := mkEnc { e_payload : C; e_algo : string; e_serializer : option string; e_key : option string }.
 
@@ -311,3 +337,4 @@ Arguments RPayload {V}. Arguments RNoCodec {V}. Arguments RDecryptError {V}. Arg
 Arguments enc_error_uri {V}. Arguments mkEnc {C}. Arguments e_payload {C}. Arguments e_algo {C}.
 Arguments e_serializer {C}. Arguments e_key {C}. Arguments Encoded {V C}. Arguments Plain {V C}.
 Arguments DOk {V}. Arguments DRaise {V}.
+Arguments KSet {X}. Arguments KUse {X}.
